@@ -345,14 +345,16 @@ def build_capture(scripts_conns, rng, interleave=True):
         per.append(list(conn.pkts))
         keylog += sc.keylog_lines()
         truths[i] = truth
-    merged = []
+    merged, owners = [], []
     idx = [0] * len(per)
     t = 1_700_000_000_000_000 + rng.randrange(0, 10 ** 6)
     while any(idx[i] < len(per[i]) for i in range(len(per))):
         live = [i for i in range(len(per)) if idx[i] < len(per[i])]
         i = rng.choice(live) if interleave else live[0]
         _, f, *_ = per[i][idx[i]]
-        idx[i] += 1
         t += rng.randrange(1, 50_000)
         merged.append(("pkt", t, f))
+        owners.append((i, idx[i]))
+        idx[i] += 1
+    build_capture.last_owners = owners
     return merged, keylog, truths
